@@ -157,6 +157,17 @@ example : (strLines exRec).map Line.tag =
     ["header", "xmin", "resid", "obj", "evals", "runs", "jac", "diag", "xmin-eval", "evalnums-none",
      "flag", "msg", "footer"] := by decide
 
+/-- sizes on the far side of the three printing thresholds (m = 100, Jacobian size 200, 100 labels) -/
+def exBig : ResultRec :=
+  { exEarly with resid := List.replicate 100 (.fin 0), obj := .fin 0,
+                 jacobian := some (List.replicate 20 (List.replicate 10 .nan)),
+                 jacminEvalNums := some (List.replicate 100 1) }
+
+example : (strLines exBig).map Line.tag =
+    ["header", "xmin", "resid-long", "obj", "evals", "jac-long", "xmin-eval", "evalnums-long",
+     "flag", "msg", "footer"] := by decide
+example : (fromDict (strKeys (toDict true exBig))).map (·.jacobian) = some exBig.jacobian := by decide +kernel
+
 /-- ±inf: the strict dump raises (known finding `C20:inf-not-strict-json`), the lenient one round-trips. -/
 theorem C20_inf_counterexample :
     ∃ r : ResultRec, hasNaN (toDict true r) = false ∧ isStrict (toDict true r) = false ∧
